@@ -31,13 +31,18 @@ ENTER = "tracing::span::Span::enter"
 LEVELS = {"TRACE": 0, "DEBUG": 1, "INFO": 2, "WARN": 3, "ERROR": 4}
 LE = "<tracing_core::metadata::Level as core::cmp::PartialOrd<tracing_core::metadata::LevelFilter>>::le"
 INSTRUMENT = "tracing::instrument::Instrument::instrument"
-FLOOR_FNS = 34
+FLOOR_FNS = 118
 
 
 def load_expect(F):
     p = os.path.join(_facts.VERIF, "fixtures", "fx_instrument", "expect.json")
     with open(p) as fh:
-        return json.load(fh)
+        d = json.load(fh)
+    # the generated part of the corpus (fixtures/gen_instrument.py), written into the fixture work copy
+    gp = os.path.join(_facts.fixture_dir(F.config, None), "fx_instrument", "gen_expect.json")
+    with open(gp) as fh:
+        d.update(json.load(fh))
+    return d
 
 
 # ------------------------------------------------------------------------------------------------ marker automaton
@@ -187,8 +192,9 @@ def carrier_of(F, name, exp):
 
 
 def run(ck):
-    F = Facts("fx_instrument")
-    ck.configs.append("fx_instrument")
+    cfg = "fx_instrument" if ck.tier == "quick" else "fx_instrument:%d:160" % ck.seed
+    F = Facts(cfg)
+    ck.configs.append(cfg)
     L = Facts("default")
     ck.configs.append("default")
     expect = load_expect(F)
@@ -346,7 +352,7 @@ def r2(ck, F, name, exp, car):
         problems.append("%d SPAN callsites in the expansion (expected exactly 1)" % len(spans))
     else:
         ms = list(spans.values())[0]
-        want = {"name": exp["name"], "level": exp["level"], "target": exp.get("target", FX)}
+        want = {"name": exp["name"].rsplit("::", 1)[-1], "level": exp["level"], "target": exp.get("target", FX)}
         for k, v in want.items():
             if ms[k] != v:
                 problems.append("%s is %r, configured %r" % (k, ms[k], v))
